@@ -110,27 +110,6 @@ theorem id_ops_frame (E : Env) (fs : FS) (op : Op) (hop : op.isId = true) (l : L
 
 /-! ### the error branches -/
 
-theorem wtdDelete_false (E : Env) (fs : FS) (l : Loc) (h : (wtdDelete E fs l).2 = false) : look E fs l = .dir := by
-  unfold wtdDelete at h
-  split at h
-  · cases h
-  · rename_i hd; simp at hd
-    split at h
-    · cases h
-    · rename_i hn; simp [look, hd, hn]
-    · cases h
-
-theorem deleteMarkers_false (E : Env) (mk : Bool → Loc) (fs : FS) (hne : mk true ≠ mk false)
-    (h : (deleteMarkers E mk fs).2 = false) : ∃ d, look E fs (mk d) = .dir := by
-  unfold deleteMarkers forDirs at h
-  simp only at h
-  split at h
-  · refine ⟨true, ?_⟩
-    rw [← onlyAt_look (wtdDelete_onlyAt E fs (mk false)) E (mk true) hne]
-    exact wtdDelete_false E _ _ h
-  · rename_i h1
-    exact ⟨false, wtdDelete_false E fs _ (by simpa using h1)⟩
-
 /-- an OSError escapes only where the real calls raise one: a directory sits at a marker location that has
     to be unlinked, or the identifier file (or the target of its symlink) is a directory -/
 theorem oserror_needs_directory (E : Env) (fs : FS) (op : Op) (h : (step E fs op).2 = .oserror) :
@@ -225,11 +204,6 @@ def IdStable : Prop :=
   ∀ (E : Env) (fs : FS) (h1 : List Op) (a : Op) (h2 : List Op) (r : Option Str) (f x : Str),
     a.isId = true → (step E (exec E fs h1) a).2 = .id x → (∀ o ∈ h2, o.isNew = false) →
     (step E (exec E fs (h1 ++ a :: h2)) (.readId r f)).2 = .id x
-
-theorem exec_append (E : Env) (fs : FS) (h1 h2 : List Op) : exec E fs (h1 ++ h2) = exec E (exec E fs h1) h2 := by
-  induction h1 generalizing fs with
-  | nil => rfl
-  | cons o h ih => simp [exec, ih]
 
 /-- the full statement holds PROVIDED the default configuration directory exists -/
 theorem id_stable_partial (E : Env) (hD : E.has false = true) (fs : FS) (h1 : List Op) (a : Op) (h2 : List Op)
